@@ -313,7 +313,10 @@ def handle (j : Json) : Json :=
     | _, _ => err "bad format args"
   | some "to_string" =>
     match valList? (getD j "vs") with
-    | some vs => Json.mkObj [("r", ofList (fun v => ofRes (fun t => Json.str (String.join (t.map Tok.spell))) (toStringE v)) vs)]
+    | some vs =>
+      let sp := fun (t : List Tok) => Json.str (String.join (t.map Tok.spell))
+      Json.mkObj [("r", ofList (fun v => ofRes sp (toStringE v)) vs),
+                  ("j", ofList (fun (v : Val) => ofRes sp (jTokens v.toJ)) vs)]     -- the general encoder on the same value
     | none => err "bad to_string args"
   | some "to_string_j" =>
     match (arr? (getD j "vs")).bind (fun a => a.toList.mapM toJVal) with
